@@ -95,10 +95,17 @@ def run_case(ctx, S, a, b, r, fracs):
             l2 = s(t2 + d) - s(t2)
             if abs(l1 - l2) > 1e-7 * dr + 1e-9 * mag:
                 probs.append("equal durations map to different lengths: %r vs %r" % (l1, l2))
-        # round trip inside the domain
+        # round trip inside the domain.  scale(t) carries a float error of a few ulp of the range magnitude,
+        # which invert() magnifies by (domain span)/(range span): with a range whose span is tiny relative
+        # to its magnitude no float implementation can return the instant to 1 ms, so such ranges are not
+        # judged for the round trip (found on the thorough tier: range [-6212.67, -6210.10] over 187 years).
         lo, hi = min(a, b), max(a, b)
+        amplification = 8 * 2.0 ** -53 * mag / dr * (abs(span_us) / 1000.0)
+        judge_roundtrip = amplification <= 0.25
+        if not judge_roundtrip:
+            ctx.path("roundtrip-not-judged-ill-conditioned-range")
         for t, y in zip(ts, ys):
-            if lo <= t <= hi:
+            if judge_roundtrip and lo <= t <= hi:
                 back = s.invert(y)
                 if not isinstance(back, datetime) or abs(back - t) > timedelta(milliseconds=1):
                     probs.append("invert(scale(t)) off by more than 1 ms: t=%s back=%r" % (t.isoformat(), back))
